@@ -2,7 +2,7 @@ use crate::internals::{function_wrapper::*, stream_controller::*};
 use crate::prelude::*;
 use std::collections::HashMap;
 use std::hash::Hash;
-use std::sync::{Arc, RwLock};
+use std::sync::{Arc, Mutex, RwLock};
 
 #[derive(Clone)]
 pub struct GroupBy<'a, Item, Key>
@@ -33,10 +33,19 @@ where
     Observable::create(move |s| {
       let f = f.clone();
 
-      let sbjmap = Arc::new(RwLock::new(HashMap::<
-        Key,
-        subjects::Subject<Item>,
-      >::new()));
+      // A group that has just been created is "opening" until it has been announced
+      // downstream and been given the item that created it: what other threads (or a
+      // re-entrant callback) push into it meanwhile waits in `pending` and is handed over
+      // by the creating thread, so that nothing reaches the group before its subscriber.
+      #[derive(Clone)]
+      struct Group<'a, Item>
+      where
+        Item: Clone + Send + Sync,
+      {
+        sbj: subjects::Subject<'a, Item>,
+        pending: Arc<Mutex<Option<Vec<Item>>>>,
+      }
+      let sbjmap = Arc::new(RwLock::new(HashMap::<Key, Group<Item>>::new()));
 
       let sctl = StreamController::new(s);
       let sctl_next = sctl.clone();
@@ -52,30 +61,61 @@ where
           let key = f.call(x.clone()); // Umm, can I use it as a reference?
           // look the group up (or create it) under the lock, announce a new group with no
           // lock held: the subscriber may feed the source again from its callback
-          let (sbj, is_new) = {
+          let (group, is_new) = {
             let mut sbjmap = sbjmap_next.write().unwrap();
-            if let Some(sbj) = sbjmap.get(&key) {
-              (sbj.clone(), false)
+            if let Some(group) = sbjmap.get(&key) {
+              (group.clone(), false)
             } else {
-              let sbj = subjects::Subject::<Item>::new();
-              sbjmap.insert(key, sbj.clone());
-              (sbj, true)
+              let group = Group {
+                sbj: subjects::Subject::<Item>::new(),
+                pending: Arc::new(Mutex::new(Some(Vec::new()))),
+              };
+              sbjmap.insert(key, group.clone());
+              (group, true)
             }
           };
           if is_new {
-            sctl_next.sink_next(sbj.observable());
+            sctl_next.sink_next(group.sbj.observable());
+            group.sbj.next(x);
+            // hand over what arrived meanwhile, then open the group
+            loop {
+              let batch = {
+                let mut pending = group.pending.lock().unwrap();
+                match pending.as_mut() {
+                  Some(items) if !items.is_empty() => std::mem::take(items),
+                  _ => {
+                    *pending = None;
+                    break;
+                  }
+                }
+              };
+              batch.into_iter().for_each(|y| group.sbj.next(y));
+            }
+          } else {
+            let x = {
+              let mut pending = group.pending.lock().unwrap();
+              match pending.as_mut() {
+                Some(items) => {
+                  items.push(x);
+                  None
+                }
+                None => Some(x),
+              }
+            };
+            if let Some(x) = x {
+              group.sbj.next(x);
+            }
           }
-          sbj.next(x);
         },
         move |_, e| {
           sbjmap_error.read().unwrap().iter().for_each(|x| {
-            x.1.error(e.clone());
+            x.1.sbj.error(e.clone());
           });
           sctl_error.sink_error(e);
         },
         move |serial| {
           sbjmap_complete.read().unwrap().iter().for_each(|x| {
-            x.1.complete();
+            x.1.sbj.complete();
           });
           sctl_complete.sink_complete(&serial);
         },
